@@ -199,7 +199,12 @@ func genSal(t *rapid.T, label string) int64 {
 
 // genRules draws n rules with tie-prone saliences. failP, tagP, retP are percentages.
 func genRules(t *rapid.T, minN, maxN int, failP, tagP, retP int) []models.Rule {
-	n := rapid.IntRange(minN, maxN).Draw(t, "nrules")
+	n := 0
+	if maxN >= 4 && minN < 3 && !pct(t, "few_rules", 12) {
+		n = rapid.IntRange(3, maxN).Draw(t, "nrules")
+	} else {
+		n = rapid.IntRange(minN, maxN).Draw(t, "nrules")
+	}
 	numericNames := pct(t, "numeric_names", 20)
 	rs := make([]models.Rule, n)
 	for i := range rs {
@@ -238,8 +243,41 @@ func genBuilds(t *rapid.T, n int) [][]int {
 }
 
 // pct is true with probability p percent; shrinks towards false.
+// (rapid's integer generators are deliberately biased towards small values, so the
+// percentage is composed from unbiased single-bit draws.)
 func pct(t *rapid.T, label string, p int) bool {
-	return rapid.IntRange(0, 99).Draw(t, label) >= 100-p
+	if p <= 0 {
+		return false
+	}
+	if p >= 100 {
+		return true
+	}
+	return bits(t, label, 7) >= 128-(p*128+50)/100
+}
+
+// bits draws an n-bit unsigned number from unbiased coin flips (shrinks towards 0).
+func bits(t *rapid.T, label string, n int) int {
+	v := 0
+	for i := 0; i < n; i++ {
+		v <<= 1
+		if rapid.Bool().Draw(t, label) {
+			v |= 1
+		}
+	}
+	return v
+}
+
+// uni draws an (almost) uniformly distributed integer in [lo,hi].
+func uni(t *rapid.T, label string, lo, hi int) int {
+	n := hi - lo + 1
+	if n <= 1 {
+		return lo
+	}
+	nb := 1
+	for (1 << nb) < n*8 {
+		nb++
+	}
+	return lo + bits(t, label, nb)%n
 }
 
 func seqInts(n int) []int {
@@ -260,8 +298,15 @@ func genPoolSize(t *rapid.T, c *SchedCase) {
 // genNames draws a name list for selected variants: a permuted subset, optionally with
 // unknown names, never with duplicates.
 func genNames(t *rapid.T, rules []models.Rule, unknownP int) []string {
+	return genNamesMin(t, rules, unknownP, 0)
+}
+
+func genNamesMin(t *rapid.T, rules []models.Rule, unknownP int, minK int) []string {
 	perm := rapid.Permutation(seqInts(len(rules))).Draw(t, "name_perm")
-	k := rapid.IntRange(0, len(rules)).Draw(t, "name_count")
+	if minK > len(rules) {
+		minK = len(rules)
+	}
+	k := rapid.IntRange(minK, len(rules)).Draw(t, "name_count")
 	var names []string
 	for _, i := range perm[:k] {
 		names = append(names, rules[i].Name)
